@@ -193,3 +193,57 @@ class CETrackEntry(Base):
 
     def observe(self, c, a, out):
         return {'kind': out.kind, 'exc': out.exc, 'entries': [[e._offset, e._length] for e in a.self._entries]}
+
+
+def remove_child_hook(it, fv, args, kwargs):
+    """callee contract of DirectoryRecord.remove_child at this call site: True iff the parent directory shrank by a sector
+    (proved separately: contracts/dr.py)"""
+    return it.ctx.ghost['dir_shrank']
+
+
+@contract
+class RemoveChildReleasesCE(Base):
+    """C04/C08 accounting on removal: _remove_child_from_dr gives back the continuation area of the removed record and - exactly
+    when that was the last area of its block - drops the block from the volume descriptor; the bytes it reports are one sector
+    for a directory that shrank plus one sector for a dropped block, so that the volume size keeps counting exactly the blocks
+    the layout will place"""
+    target = 'pycdlib.pycdlib.PyCdlib._remove_child_from_dr'
+    n = 2          # areas in the record's block, the record's own included
+    hooks = {'pycdlib.dr.DirectoryRecord.remove_child': remove_child_hook}
+
+    def setup(self, c):
+        a = c.a
+        a.blk = block(c, self.n)
+        a.which = 0 if self.n == 1 else c.choice('which', list(range(self.n)))
+        a.other = c.obj(BLK, _extent=7, _max_block_size=2048, _entries=[c.obj(ENT, _offset=0, _length=10)])
+        pvd = c.obj(VD, _initialized=True, log_block_size=2048, rr_ce_blocks=[a.other, a.blk])
+        ce = c.obj('pycdlib.rockridge.RRCERecord', _initialized=True, bl_cont_area=5, offset_cont_area=a.offs[a.which], len_cont_area=a.lens[a.which])
+        ent = c.obj('pycdlib.rockridge.RockRidgeEntries', ce_record=ce)
+        rr = c.obj('pycdlib.rockridge.RockRidge', _initialized=True, dr_entries=ent, ce_block=a.blk)
+        a.shrank = c.bool('dir_shrank')
+        if c.symbolic:
+            c.p.ghost['dir_shrank'] = a.shrank
+        else:
+            shrank = a.shrank
+            self.real_hooks = {'pycdlib.dr.DirectoryRecord.remove_child': lambda self_, child, index, lbs: shrank}
+        parent = c.obj('pycdlib.dr.DirectoryRecord', initialized=True, children=[])
+        a.child = c.obj('pycdlib.dr.DirectoryRecord', initialized=True, parent=parent, rock_ridge=rr)
+        a.pvd = pvd
+        a.before = list(a.blk._entries)
+        a.self = c.new('pycdlib.pycdlib.PyCdlib')
+        a.self.pvd = pvd
+        a.self.logical_block_size = 2048
+        return Call([a.child, 0], self_obj=a.self)
+
+    def post(self, c, a, out):
+        ents = a.blk._entries
+        last = self.n == 1
+        kept = [e for i, e in enumerate(a.before) if i != a.which]
+        return {'the-record-s-area-is-released-and-only-that': len(ents) == self.n - 1 and all(x is y for x, y in zip(kept, ents)),
+                'block-dropped-iff-it-became-empty': (not any(b is a.blk for b in a.pvd.rr_ce_blocks)) == last,
+                'other-blocks-stay': any(b is a.other for b in a.pvd.rr_ce_blocks),
+                'bytes-reported': out.result == If(a.shrank, 2048, 0) + (2048 if last else 0),
+                'record-no-longer-holds-the-block': a.child.rock_ridge.ce_block is None}
+
+    def observe(self, c, a, out):
+        return {'kind': out.kind, 'exc': out.exc, 'result': out.result}
